@@ -443,6 +443,18 @@ def queue_discipline(ctx, p):
     for field in ('.Log.read_queue', '.Log.cleanup_queue', '.Log.replay_queue', '.CommitQueue.commits'):
         bad = []
         n = 0
+        def drains_of(b):
+            return [bi for bi, t in b.all_calls() if (t.get('r') or t.get('f') or '').endswith('::drain') and t['a'] and field in lib.receiver_fields(b, t, 0)]
+        def restores(b, bi, t):
+            """un-taking: entries this function drained from the FRONT of the queue and could not process are put back at the front,
+            walking them in reverse so that they end up in their original order (the error path of a consumer)"""
+            dr = drains_of(b)
+            if not dr or len(t['a']) < 2 or op_place(t['a'][1]) is None:
+                return False
+            sl = backward_slice(b, [op_place(t['a'][1])])
+            from_drained = any(x in dr for x, _ in sl.call_sites)
+            reversed_walk = any((t2.get('r') or t2.get('f') or '').endswith('::rev') for x, t2 in sl.call_sites)
+            return from_drained and reversed_walk
         for b in F.bodies.values():
             for bi, t in b.all_calls():
                 if not t['a']:
@@ -452,6 +464,8 @@ def queue_discipline(ctx, p):
                     continue
                 if field in lib.receiver_fields(b, t, 0):
                     n += 1
+                    if nm.endswith('::push_front') and restores(b, bi, t):
+                        continue
                     if not ALLOWED.search(nm):
                         bad.append('%s calls %s at %s' % (b.path, nm, b.loc(bi)))
                     if nm.endswith('::drain'):
@@ -472,6 +486,8 @@ def queue_discipline(ctx, p):
                 nm = t.get('r') or t.get('f') or ''
                 if REORDER.search(nm) and t['a'] and op_place(t['a'][0]) is not None:
                     sl = backward_slice(b, [op_place(t['a'][0])])
+                    if nm.endswith('::rev') and any((t2.get('r') or t2.get('f') or '').endswith('::push_front') and restores(b, x2, t2) for x2, t2 in b.all_calls()):
+                        continue      # the reversed walk that feeds the restoring push_front
                     if any(x in drains for x, _ in sl.call_sites):
                         bad.append('%s processes the entries drained from %s out of order (%s at %s)' % (b.path, field, nm, b.loc(bi)))
         ctx.ob(p + 'a fifo %s' % field, 'K4-confinement', '-', 'the queue %s is used strictly FIFO (push_back / pop_front / drain from index 0); no split_off, pop_back, push_front, insert, sort' % field,
@@ -1235,3 +1251,66 @@ def value_read_one_guard(ctx, p, callers=None):
                    'a value that may be chained is read through ONE locked view of the log overlay, not through the RwLock flavour that locks per part' + (' [single-part: %s]' % why if why else ''),
                    why is not None, 'reads parts under separate acquisitions of Log.overlays: a record published in between tears the value', b.loc(bi))
     ctx.ob(p + 'b value-read-sites', 'anchor', '-', 'the value read call sites that are handed the log overlay were found', n >= 1, 'found %d' % n)
+
+
+def torn_record_not_handed_over(ctx, p):
+    """Log::end_record appends a record to the log file being written. If the write fails part-way the file ends in a torn record.
+    The stage that applies records during a session does not validate them (no CRC check: that is done at open only), so the file
+    must never reach the read queue: on the error arm of the append the appending writer is given up (the file stays on disk and
+    the next open stops at the torn record). Keeping it lets the next flush hand it over, and half of a transaction - the index
+    sections come first - is applied (F45)."""
+    F = ctx.F
+    b = ctx.body('log::Log::end_record')
+    if not b:
+        return
+    ft = b.call_sites('log::LogChange::flush_to_file')
+    errs = [x for s in ft for x in lib.result_err_targets(b, s)]
+    clears = []
+    for bi in b.normal_blocks():
+        for s in b.blocks[bi]['s']:
+            if s['k'] == 'assign' and s['r']['k'] == 'agg' and s['r']['ak'] == 'Adt:std::option::Option::None' and 'log::Appending' in str(b.locals[s['p'][0]]):
+                # `*appending = None` through the guard (or a reference to the slot)
+                clears.append(bi)
+    for bi, t in b.calls():
+        if bi in b.normal_blocks() and call_matches(t, ['re:Option::<T>::take$', 're:^std::mem::(take|replace)$']) and t['a'] and '.Log.appending' in lib.receiver_fields(b, t, 0):
+            clears.append(bi)
+    ctx.ob(p + 'k0 append-error-arm', 'anchor', b.path, 'end_record appends through LogChange::flush_to_file and has an error arm for it', len(ft) == 1 and len(errs) >= 1, 'append sites %s error arms %s' % (ft, errs))
+    if not errs:
+        return
+    w = b.find_path(errs, b.return_blocks(), removed=set(clears)) if clears else ['?']
+    ctx.ob(p + 'k torn-record-never-handed-over', 'K1-must-pass', b.path,
+           'when appending a record fails, the appending log writer is given up before the error is returned (the torn file cannot be flushed into the read queue and applied without validation)',
+           w is None, 'the error arm keeps Log.appending: the next flush hands the torn file to the applier' if not clears else 'error path that keeps the writer: ' + lib.short_path(b, w), b.loc(ft[0]))
+
+
+def failed_cleanup_keeps_queue_order(ctx, p):
+    """Log::clean_logs takes the oldest logs off the cleanup queue and truncates them. A log may leave the queue for good only once
+    it IS truncated: if truncating fails, every log taken off and not yet cleaned goes back to the front of the queue. Forgetting
+    them lets a later call (the shutdown path) truncate NEWER logs while these stay on disk; the next open replays the stale log
+    over newer table state and discards everything behind the gap (F46)."""
+    F = ctx.F
+    b = ctx.body('log::Log::clean_logs')
+    if not b:
+        return
+    take = lib.field_effect_sites(b, ['re:VecDeque.*::drain$', 're:VecDeque.*::pop_front$', 're:VecDeque.*::split_off$', 're:^std::mem::take$'], '.Log.cleanup_queue')
+    back = lib.field_effect_sites(b, ['re:VecDeque.*::push_front$', 're:VecDeque.*::push_back$', 're:VecDeque.*::extend$', 're:Extend<.*>>::extend$', 're:VecDeque.*::append$', 're:VecDeque.*::insert$'], '.Log.cleanup_queue')
+    # a loop that puts entries back one by one counts as a whole (its zero-iteration path has nothing to put back)
+    for lp in lib.for_loops_over(b):
+        if any(x in b.reachable_from([lp['some']], removed={lp['head']}) for x in back):
+            back = list(back) + [lp['head']]
+    # direct file calls, or calls to a helper / closure that makes them (the helper's Result stands for theirs)
+    io = lib.sites_reaching(b, ['re:File::set_len$', 're:File::sync_all$', 're:File::sync_data$', 're:Seek>?::rewind$', 're:::rewind$'])
+    ctx.ob(p + 'q0 cleanup-anchors', 'anchor', b.path, 'clean_logs takes logs off the cleanup queue and truncates + syncs them', len(take) >= 1 and len(io) >= 1, 'take %s io %s' % (take, io))
+    if not take or not io:
+        return
+    bad = None
+    for x in io:
+        for e in lib.result_err_targets(b, x):
+            if not any(x in b.reaches(tk) for tk in take):
+                continue          # the queue was not touched yet: nothing to put back
+            w = b.find_path([e], b.return_blocks(), removed=set(back))
+            if w is not None:
+                bad = bad or (x, w)
+    ctx.ob(p + 'q failed-cleanup-requeues-uncleaned-logs', 'K1-must-pass', b.path,
+           'if truncating / syncing a log fails after logs were taken off the cleanup queue, the logs not cleaned are put back onto the queue before the error is returned',
+           bad is None, '' if bad is None else 'error of %s returns with the taken logs forgotten: %s' % (b.term(bad[0]).get('r') or b.term(bad[0]).get('f'), lib.short_path(b, bad[1])), b.loc(take[0]))
